@@ -501,8 +501,14 @@ def write_evidence(prop, body):
 # --------------------------------------------------------------------------
 # the check itself
 # --------------------------------------------------------------------------
+def tier():
+    """Tier of the running check; generators widen their size distributions in the thorough tier."""
+    return os.environ.get("TESIM_TIER", "quick")
+
+
 def run_check(prop, tier, seed, workers=None, runs=None, wall=None):
     t0 = time.time()
+    os.environ["TESIM_TIER"] = tier
     mod = load_prop(prop)
     tpath = assert_repo_imported()
     workers = workers or int(os.environ.get("TESIM_WORKERS", os.cpu_count() or 4))
